@@ -358,6 +358,15 @@ pub async fn scenario_c08() {
 			singles.push((id, m, len, blob, false));
 		}
 	}
+	if !tiny && (resp_limit as usize) + 100 < req_a.min(req_b) as usize && rt::chance("long_id", 1, 4) {
+		// a call to an unknown method with a long string id: the library's own "Method not found" reply echoes the id
+		let id_num = 8u64;
+		let overhead = "{\"jsonrpc\":\"2.0\",\"id\":\"\",\"error\":{\"code\":-32601,\"message\":\"Method not found\"}}".len();
+		let delta = rt::draw("id_delta", 7) as i64 - 3;
+		let id_len = ((l as i64 + delta) as usize).saturating_sub(overhead).max(1);
+		let id = "i".repeat(id_len);
+		singles.push((id_num, format!("{{\"jsonrpc\":\"2.0\",\"id\":\"{id}\",\"method\":\"nope\"}}").into_bytes(), overhead + id_len, format!("long-id:{id}"), true));
+	}
 	if tiny {
 		// an unsubscribe call naming no live subscription: answered `false` (WebSocket only)
 		let id = 7u64;
@@ -445,13 +454,15 @@ pub async fn scenario_c08() {
 		for f in frames.iter().chain(std::iter::once(&http_batch.body)).chain(http_singles.iter().map(|r| &r.body)) {
 			if f.len() > l && !too_big(f) {
 				// one of the library's own fixed error objects (no handler data) above a limit that is smaller than they are
-				let fixed_error = f.len() <= 100 && matches!(parse_response(f), Ok((_, Err(-32603 | -32600 | -32601 | -32602 | -32700)))) && !String::from_utf8_lossy(f).contains("\"data\"");
-				rt::violate(P, "oversized-reply-sent", if fixed_error { "fixed-library-error-above-tiny-limit".to_string() } else { format!("{entry:?}") }, format!("a reply of {} bytes was sent although max_response_body_size is {resp_limit}: {}...", f.len(), String::from_utf8_lossy(f).chars().take(100).collect::<String>()));
+				// one of the library's own error objects (no handler data): they are built without looking at the limit
+				let fixed_error = matches!(parse_response(f), Ok((_, Err(-32603 | -32600 | -32601 | -32602 | -32700)))) && !String::from_utf8_lossy(f).contains("\"data\"");
+				rt::violate(P, "oversized-reply-sent", if fixed_error { "library-error-not-bounded".to_string() } else { format!("{entry:?}") }, format!("a reply of {} bytes was sent although max_response_body_size is {resp_limit}: {}...", f.len(), String::from_utf8_lossy(f).chars().take(100).collect::<String>()));
 			}
 		}
 		// --- singles ---
 		for (k, (id, _m, len, blob, is_err)) in singles.iter().enumerate() {
-			for (transport, reply) in [("ws", frames.iter().find(|f| matches!(parse_response(f), Ok((i, _)) if i == json!(*id))).cloned()), ("http", Some(http_singles[k].body.clone()))] {
+			let long_id = blob.strip_prefix("long-id:");
+			for (transport, reply) in [("ws", frames.iter().find(|f| matches!(parse_response(f), Ok((i, _)) if i == json!(*id) || long_id.is_some_and(|s| i == json!(s)))).cloned()), ("http", Some(http_singles[k].body.clone()))] {
 				if blob == "unsub-false" && transport == "http" {
 					continue;
 				}
@@ -467,6 +478,7 @@ pub async fn scenario_c08() {
 						(Ok((_, Ok(v))), false) if blob == "unsub-false" => *v == json!(false) && reply.len() == *len,
 						(Ok((_, Ok(v))), false) => v.as_str() == Some(blob.as_str()) && reply.len() == *len,
 						(Ok((_, Err(c))), true) if blob == "panic" => *c == -32603 && reply.len() == *len,
+						(Ok((_, Err(c))), true) if long_id.is_some() => *c == -32601 && reply.len() == *len,
 						(Ok((_, Err(c))), true) => *c == -32051 && reply.len() == *len,
 						_ => false,
 					};
@@ -474,6 +486,8 @@ pub async fn scenario_c08() {
 						let at = if *len == l { "exactly-at-limit" } else { "below-limit" };
 						rt::violate(P, "fitting-reply-altered", format!("single:{at}:{transport}"), format!("call {id}: its response has {len} bytes (limit {resp_limit}) and must be sent unchanged; got {} bytes: {}...", reply.len(), String::from_utf8_lossy(&reply).chars().take(120).collect::<String>()));
 					}
+				} else if long_id.is_some() {
+					// (judged by the wire-length monitor above: the reply is sent as it is, see the known finding)
 				} else {
 					match &parsed {
 						Ok((i, Err(-32008))) if *i == json!(*id) => {}
